@@ -42,6 +42,7 @@ class Ctx:
             self._models[cfg] = m          # bootstrap: constructors are analysed without room reasoning
             from . import composite
             m.resident_bound_fields = composite.resident_bound(self, cfg)
+            m.cap_alias = composite.cap_aliases(self, cfg)
             # paths computed during bootstrap did not need room facts (constructors / len): keep them
         return self._models[cfg]
 
